@@ -103,12 +103,17 @@ def h_sbrg_general(env, N, coefs):
     env.goal('circuit_is_a_circuit', isinstance(circ, M.ci.CliffordCircuit))
 
 
-def h_sbrg(env, N, coefs):
+def h_sbrg(env, N, coefs, fix=None):
     """commuting-term Hamiltonian with symbolic term strings and concrete coefficients: heff has only I/Z strings and
     circ.forward(H) equals heff as an operator (coefficient vector over the Pauli basis)"""
     M = Mods(env)
     T = len(coefs)
     g = env.bits('terms', (T, 2 * N))
+    if fix is not None:
+        # case split: the strings of the leading terms are fixed, the remaining ones stay symbolic
+        for k, row in enumerate(fix):
+            for i, v in enumerate(row):
+                g[k][i] = v
     for a in range(T):
         env.assume(b_not(arr_eq(g[a], [0] * (2 * N))), 'terms are not the identity')
         for b in range(a + 1, T):
@@ -153,8 +158,15 @@ def jobs(tier):
         J.append(dict(harness=('c18', 'h_diag_state'), params=dict(N=N), timeout_s=600, cost=30))
     for N in (1, 2):
         for coefs in ([2], [3, -1], [1, 2]) + (([1, -3, 2],) if tier == 'thorough' else ()):
+            pass
+        for coefs in ([2], [3, -1], [1, 2]) + (([1, -3, 2],) if tier == 'thorough' else ()):
             if len(coefs) <= 2 ** N - 1:
                 J.append(dict(harness=('c18', 'h_sbrg'), params=dict(N=N, coefs=list(coefs)), timeout_s=600, cost=50, max_paths=20000))
+    for f1 in itertools.product((0, 1), repeat=6):
+        if any(f1) and (tier == 'thorough' or f1 == (0, 1, 0, 1, 0, 0)):
+            if True:
+                J.append(dict(harness=('c18', 'h_sbrg'), params=dict(N=3, coefs=[3, 2, 1], fix=[list(f1)]), timeout_s=300, cost=100, max_paths=60000, wall_s=900,
+                              label='split63:h_sbrg[N=3, leading=%s]' % ''.join(map(str, f1))))
     for N, coefs in ((1, [2, 1]), (2, [2, 1]), (2, [4, 1, 2])):
         J.append(dict(harness=('c18', 'h_sbrg_general'), params=dict(N=N, coefs=list(coefs)), timeout_s=600, cost=50, max_paths=20000))
     return J
